@@ -107,7 +107,7 @@ Proof.
     subst b. f_equal.
     destruct (N.eq_dec bits 0) as [E0|E0].
     + subst bits. change (2 ^ (8 - 0)) with 256 in Hx, Hy. rewrite N.mod_small in Hx, Hy by assumption. lia.
-    + assert (Hk : N.to_nat ((bits + 7) / 8) = 1%nat) by lia.
+    + assert (Hk : N.to_nat ((bits + 7) / 8) = 1%nat) by (clear - E E0; lia).
       rewrite Hk in Hf. cbn [firstn] in Hf. injection Hf as Hxy. exact Hxy.
 Qed.
 
